@@ -216,3 +216,19 @@ PROPS["C13"] = {
     "assumptions": [],
     "not_proved": ["keXHat byte-level Go function = xbar as a theorem (compared through kex on keys with short coordinates)"],
 }
+
+PROPS["C14"] = {
+    "modules": ["Gmsm.Props.C14"],
+    "theorems": [
+        "Props.C14.hex_roundtrip", "Props.C14.hex_priv_roundtrip", "Props.C14.pub_encoding_roundtrip",
+        "Props.C14.sig_asn1_roundtrip", "Props.C14.compress_x_roundtrip", "Props.C14.loader_accepts_iff",
+        "Props.C14.b32_length", "Gmsm.os2ip_i2ospR", "Gmsm.os2ip_natBytes",
+    ],
+    "gen_items": ["sm2."],
+    "level": "proof",
+    "claim": "The codecs the library implements itself are specified in Lean and proved to round-trip for every value: hexadecimal text of any byte string, the fixed 32-byte big-endian integers behind the hex / uncompressed / compressed key forms (incl. leading zero nibbles and bytes), strict DER of (r,s); the loaders' decision is equality of the public points. The real code is compared with these specs (exact text/bytes) and every write->read pair is checked for equality on every run: hex private and public keys, compressed points (and Decompress on malformed input against a square-root spec), ASN.1 signatures and ciphertexts with short and high-bit integers, PKCS#8 PEM with nil / empty / ASCII / UTF-8 / 1 KiB passwords and wrong passwords differing in one character, case or length, PKIX public-key PEM, and all six key-pair loaders with the matching key, another key and the negated key.",
+    "note": "Partial: PKCS#8/PKIX/PEM whole-object round trips and password rejection go through encoding/asn1, encoding/pem, crypto/aes, PBKDF2 (stdlib) and are decided by read-back equality in the correspondence run, not by a theorem; compress_roundtrip's y-recovery (Euler criterion) is compared against a Lean square-root spec, not proved.",
+    "trusted_base": ["toHex/ofHex, i2ospR, Spec.DER; tie by the C14 op set of the harness (intrinsic read-back oracles + exact encodings)"],
+    "assumptions": [],
+    "not_proved": ["compress_roundtrip (square root recovery)", "pkcs8_enc_roundtrip / wrong password rejected as theorems", "cipher_asn1_roundtrip as a theorem"],
+}
